@@ -26,7 +26,8 @@ EXPLANATION = (
     "header, a first item equal to the dimension's letter, 2-d content) read through models of pandas.read_csv / read_excel that "
     "follow the documented semantics (header=None keeps the first row, sheet_name=None returns a dict of all sheets, 0 the first): "
     "items must come out in file order converted to the declared type. A client DataReader (as in the documentation) drives the "
-    "whole pipeline.")
+    "whole pipeline. "
+    "Files that are read, edited and read again by a new reader give their present content.")
 TECHNIQUE = "static analysis: abstract interpretation of the assembly code over enumerated definitions and abstract file contents; built heap compared with the definitions"
 
 CLIENT = '''
